@@ -28,8 +28,10 @@ PROGRAMS = {
     # is per call, and the main thread goes on using the shared table afterwards
     "jobs-add-vs-jobs": ([("jobs",), ("add", "bg"), ("next",)], [("jobs",)]),
     "disown-add-vs-bg": ([("disown", ["2"]), ("add", "bg")], [("bg", [])]),
+    # the main thread starts a FOREGROUND job while the alias thread is inside `bg` (its resume waits)
+    "addfg-vs-bg": ([("add", "fg"), ("next",)], [("bg", [])]),
 }
-QUICK = ["add-vs-jobs", "add-vs-disown", "exit-next-vs-jobs", "next-vs-bg", "jobs-add-vs-jobs"]
+QUICK = ["add-vs-jobs", "add-vs-disown", "exit-next-vs-jobs", "next-vs-bg", "jobs-add-vs-jobs", "addfg-vs-bg"]
 
 _PROG = None
 _XSH = None
